@@ -16,6 +16,7 @@ gvars == <<mcvars, script, kind>>
 L(s) == script' = Append(script, s) /\ kind' = "none"
 CanEnv == nenv < MaxEnv
 Kinds == (IF pending # << >> THEN {"proc", "proc2", "proc3"} ELSE {})
+         \cup (IF pending # << >> /\ Head(pending).t = "DatabaseConfigChanged" THEN {"fault"} ELSE {})
          \cup (IF CanEnv /\ repoLive # Node THEN {"up", "up2"} ELSE {})
          \cup (IF CanEnv /\ repoLive # {} THEN {"down"} ELSE {})
          \cup (IF CanEnv THEN {"put", "put2", "drop"} ELSE {})
@@ -31,5 +32,10 @@ GNext ==
   \/ /\ kind \in {"proc", "proc2", "proc3"}
      /\ \E st \in 0..(Cardinality(Node) - 1), sh \in 0..(Cardinality(Node) - 1) : Process(st, sh)
      /\ UNCHANGED nenv /\ L("process")
-GSpec == GInit /\ [][GNext]_gvars
+GNextF ==
+  /\ kind = "fault"
+  /\ \E f \in {"read", "put1", "put2"} :
+       \E st \in 0..(Cardinality(Node) - 1), sh \in 0..(Cardinality(Node) - 1) :
+         ProcessF(st, sh, f) /\ UNCHANGED nenv /\ L("process:" \o f)
+GSpec == GInit /\ [][GNext \/ GNextF]_gvars
 =============================================================================
